@@ -131,10 +131,16 @@ func (p *wat2wasmWorker) buildTypeSection() error {
 	p.mWasm.TypeSection = []*wasm.FunctionType{}
 
 	// Type段类型
+	// 显式声明的类型各占一个索引(不合并)
 	for _, x := range p.mWat.Types {
-		if err := p.buildFuncType(x.Name, x.Type); err != nil {
-			return err
+		t := &wasm.FunctionType{}
+		for _, param := range x.Type.Params {
+			t.Params = append(t.Params, p.buildValueType(param.Type))
 		}
+		for _, result := range x.Type.Results {
+			t.Results = append(t.Results, p.buildValueType(result))
+		}
+		p.mWasm.TypeSection = append(p.mWasm.TypeSection, t)
 	}
 
 	// 导入函数类型
